@@ -176,7 +176,7 @@ def check_case(fn, recipe, script, config, rec=None):
         HY.force_global_clean()
         raise PropertyViolation(
             "hang",
-            f"the instrumented run under {config!r} did not finish within 3 s (the untouched call returned "
+            f"the instrumented run under {config!r} did not finish within 3 s of CPU time (the untouched call returned "
             f"immediately)\n{src}",
         )
     except BaseException as e:
